@@ -253,7 +253,15 @@ def str_strip_suffix(ex, a, b):
 
 @nat('str::strip_prefix')
 def str_strip_prefix(ex, a, b):
-    s_, p = D(ex, a).s, _pat_text(ex, b)
+    sa = D(ex, a)
+    pb0 = D(ex, b)
+    if not sa.is_concrete() or (isinstance(pb0, StrV) and not pb0.is_concrete()):
+        pat = pb0.chars if isinstance(pb0, StrV) else [pb0]
+        if len(pat) > len(sa.chars):
+            return NONE()
+        hit = ex.branch(zbool(str_eq(ex, StrV(sa.chars[:len(pat)]), StrV(pat))))
+        return some(Ref(Cell(StrV(sa.chars[len(pat):])))) if hit else NONE()
+    s_, p = sa.s, _pat_text(ex, b)
     return some(Ref(Cell(StrV(s_[len(p):])))) if s_.startswith(p) else NONE()
 
 
